@@ -265,7 +265,7 @@ CHECKS["C20"] = {
                  "second graph and re-recorded; buffers and tick streams of the two runs are compared cycle by cycle",
     "design_ref": "DESIGN.md 2/C20",
     "parts": [{"name": "roundtrip", "exe": "c20_replay", "sources": ["c20_replay.cpp"], "shards": {"quick": 16, "thorough": 256}}],
-    "rule": "memory part of the harness (M<s>: cases): the public record(ts, key) under the default memory backend ((time, delta) entries under :memory:<recordable_id>.<key>) and replay(key, recordable_id) reading them back by absolute time in a run that starts at cycle s, for EVERY s in 0..T: the replayed stream is exactly the original ticks with cycle >= s (scalars: cycles, deltas, values; lists: cycles and deltas; sets / dictionaries started mid-recording: no tick where the original had none). shapes: TS<Int>, TS<Str>, SIGNAL, TSS<Int>, TSD<Int,TS<Int>>, TSD<Int,TSS<Int>>, TSD<Int,TSB{a,b}>, TSL<TS<Int>,2>, TSL<TSS<Int>,2>, TSL<TSB{a,b},2> and TSL<TSL<TS<Int>,2>,2> (elements completed one member at a time), "
+    "rule": "For every start cycle s the memory recording is also folded back into STATE (recorded_seed_resolver, what a recovering component does): the result equals the value the original held at s; shapes here include dictionaries of sets and of bundles whose keys leave and return. memory part of the harness (M<s>: cases): the public record(ts, key) under the default memory backend ((time, delta) entries under :memory:<recordable_id>.<key>) and replay(key, recordable_id) reading them back by absolute time in a run that starts at cycle s, for EVERY s in 0..T: the replayed stream is exactly the original ticks with cycle >= s (scalars: cycles, deltas, values; lists: cycles and deltas; sets / dictionaries started mid-recording: no tick where the original had none). shapes: TS<Int>, TS<Str>, SIGNAL, TSS<Int>, TSD<Int,TS<Int>>, TSD<Int,TSS<Int>>, TSD<Int,TSB{a,b}>, TSL<TS<Int>,2>, TSL<TSS<Int>,2>, TSL<TSB{a,b},2> and TSL<TSL<TS<Int>,2>,2> (elements completed one member at a time), "
             "TSB{a,b}, TSB{d:TSD<Int,TS<Int>>, x:TS<Int>}, TSW<Int,3,2>; histories: every sequence over T cycles of lists of <= L mutations from the "
             "shape's alphabet (gaps, removals, child-only ticks, same-cycle cancellations, bulk growth). Graph 1: scripted writer -> record + probe. "
             "Graph 2: replay(buffer of graph 1) -> record + probe. Oracle: both recordings hold the same delta in the same cycle (canonical text "
